@@ -628,6 +628,27 @@ def gen_mt_exhaustive(rng, hooks, nscen, depth, nt=2):
     return hs
 
 
+# fixed two-thread scenarios on payloads with several embedded handles, run under EVERY schedule prefix: clone of a shared list
+# (element increments) against the release that may run the destructor cascade; the same for an Xml element with children;
+# two assignments from elements of the own shared payload (increment inner, release outer, the last one cascades)
+NESTED_SCEN = [
+    ["vsets 0 61", "vpushv 1 0", "vpushv 1 0", "vclear 0", "vcopy 2 1", "give 5 1", "give 6 2",
+     "prog 1 vpush 1 3", "prog 1 vclear 1", "prog 2 vclear 2"],
+    ["xsets 0 61", "xsets 3 63", "xaddc 1 0", "xaddc 1 0", "xclear 0", "xcopy 2 1", "give 9 1", "give 10 2", "give 11 2",
+     "prog 1 xelem 1 62", "prog 2 xaddc 2 3", "prog 2 xclear 2"],
+    ["vsets 0 61", "vsets 3 62", "vpushv 1 0", "vpushv 1 3", "vclear 0", "vclear 3", "vcopy 2 1", "give 5 1", "give 6 2",
+     "prog 1 vgetv 1 1 0", "prog 2 vgetv 2 2 1"],
+]
+
+
+def gen_nested_exhaustive(hooks, depth):
+    hs = []
+    for scen in NESTED_SCEN:
+        for sched in itertools.product([1, 2], repeat=depth):
+            hs.append(with_schedule([f"hooks {hooks}"] + scen, list(sched)))
+    return hs
+
+
 BRANCH = {}
 import re
 EMB_RE = re.compile(r"[>,]b(\d+)")
@@ -743,7 +764,8 @@ def check(ctx):
         mte = gen_mt_exhaustive(rng, hooks, 12 if quick else 100, d2)
         mte3 = gen_mt_exhaustive(rng, hooks, 3 if quick else 20, d3, nt=3)
         st = corpus + ex + rnd
-        mt = mtr + mte + mte3
+        mtn = gen_nested_exhaustive(hooks, d2)
+        mt = mtr + mte + mte3 + mtn
         ctx.cov["rule"] = (
             f"single-threaded: corpus ({len(corpus)}) + all op sequences of length <= {depth} per handle kind over "
             f"{sum(len(v) for v in SMALL.values())} ops (2-3 handles; self/other arguments; {len(ex)} histories"
@@ -751,7 +773,8 @@ def check(ctx):
             f"multi-threaded: {len(mtr)} random scenarios (setup sharing payloads over the 4 handles of 1-2 kinds, 2-3 threads, 2-6 API calls) "
             f"each under one random schedule of 8..50 entries + {len(mte) // 2 ** d2} scenarios of 2 threads under all {2 ** d2} "
             f"schedules of their first {d2} scheduling points + {len(mte3) // 3 ** d3} scenarios of 3 threads under all {3 ** d3} schedules "
-            f"of their first {d3} points; a thread is descheduled before and after every atomic operation on a payload counter (counter-read hooks {'present' if hooks else 'ABSENT: plain reads are not scheduling points'}); "
+            f"of their first {d3} points + {len(NESTED_SCEN)} fixed nested-payload scenarios (shared list / Xml element with two boxed elements: clone vs release "
+            f"with destructor cascade, assignments from own elements) under all {2 ** d2} schedules; a thread is descheduled before and after every atomic operation on a payload counter (counter-read hooks {'present' if hooks else 'ABSENT: plain reads are not scheduling points'}); "
             "distinct_nontrivial = distinct (op-kind set, final observation) among histories in which a payload was shared")
         ctx.cov["exhaustive"] = False
         ctx.cov["open_statements"] = ["in-place writes through an embedded handle and the cross-kind calls Variant = String variable / String = "
